@@ -1,7 +1,7 @@
 (* MV.C16.Properties — the statements of property C16 and nothing else.
    Every theorem is closed by [exact <lemma>] and followed by Print Assumptions. *)
 From MV Require Import Lib.ListX C16.MapX.
-From MV Require C16.RankModel C16.RankProofs C16.BitsetModel C16.BitsetProofs C16.PagedModel C16.PagedProofs C16.MapsModel C16.MapsProofs C16.PrioModel C16.PrioProofs C16.LockModel C16.LockProofs.
+From MV Require C16.RankModel C16.RankProofs C16.BitsetModel C16.BitsetProofs C16.PagedModel C16.PagedProofs C16.MapsModel C16.MapsProofs C16.PrioModel C16.PrioProofs C16.LockModel C16.LockProofs C16.AtomicModel C16.AtomicProofs.
 From MV Require Import Lib.Sched.
 From Coq Require Import Sorting.Sorted Sorting.Permutation.
 (* one module per container, because every model has its own [op], [out], [step], [run] *)
@@ -290,5 +290,93 @@ Example C16_locks_example :
   path_ok [Lock "self"; DeferUnlock "self"; Acc "self" "data" false; Unlock "self"] = false /\ (* DeleteExist: unlocks twice *)
   path_ok [Lock "self"; Unlock "self"; Acc "self" "data" true] = false /\                      (* UnmarshalJSON *)
   path_ok [Lock "self"; CallSelf "self" "Get"; Unlock "self"] = false.                          (* self-deadlock *)
+Proof. vm_compute. repeat split. Qed.
+
+(* ---- one atomic step of the model = one critical section of the code (second T3 obligation) ----
+   [well_locked] accepts a method that reads under one critical section and acts on what it read under a later
+   one (check-then-act, RLock then Lock): every access is inside SOME section.  The sequential models above
+   execute every method as one step, so the generated file also proves [forallb step_ok methods = true]
+   (AtomicModel.v) for the current sources, and this theorem says what that means: every path of a method
+   that is not one of the four declared multi-step methods executes nothing, or one call of a locking method
+   of its own object, or exactly one Lock ... Unlock / RLock ... RUnlock block that contains all its accesses
+   to guarded fields (a read block containing reads only).  With C16_sync_linearizable_partial (write
+   blocks exclude every other holder, read blocks exclude writers) such a block is an atomic step. *)
+Theorem C16_atomic_step_is_one_critical_section : forall (ms : list method),
+  forallb AtomicModel.step_ok ms = true ->
+  forall m p, In m ms -> In p (mpaths m) -> AtomicModel.multi_step (mtype m) (mname m) = None ->
+  AtomicModel.one_section (AtomicModel.flatc [] p).
+Proof. exact AtomicProofs.step_ok_one_section. Qed.
+Print Assumptions C16_atomic_step_is_one_critical_section.
+
+(* The declared multi-step methods, as the several atomic steps they are:
+   MutexBucketItem.GetOrSet (RLock: look up; if absent Lock: look up AGAIN, then store) — whatever other threads
+   did to the map between the two blocks (m2 arbitrary), the call is the atomic GetOrSet of the sequential model
+   executed on m1 at block 1 when the key was found there (block 2 does not run), else on m2 at block 2. *)
+Theorem C16_get_or_set_linearizes : forall (m1 m2 : MapX.amap Z) (k v : Z),
+  match AtomicModel.gos_run m1 m2 k v with
+  | (None, x, ex) => MapsModel.Bucket.spec_step m1 (MapsModel.Bucket.ItemGetOrSet k v) = (m1, MapsModel.Bucket.OGetSet x ex)
+  | (Some m', x, ex) => MapsModel.Bucket.spec_step m2 (MapsModel.Bucket.ItemGetOrSet k v) = (m', MapsModel.Bucket.OGetSet x ex)
+  end.
+Proof. exact AtomicProofs.get_or_set_linearizes. Qed.
+Print Assumptions C16_get_or_set_linearizes.
+
+(* ... and the re-check is what makes it so (the declared shape demands a write block that starts by re-reading kv) *)
+Theorem C16_get_or_set_needs_recheck : exists (m1 m2 : MapX.amap Z) (k v : Z),
+  match AtomicModel.gos_run_unchecked m1 m2 k v with
+  | (None, x, ex) => MapsModel.Bucket.spec_step m1 (MapsModel.Bucket.ItemGetOrSet k v) <> (m1, MapsModel.Bucket.OGetSet x ex)
+  | (Some m', x, ex) => MapsModel.Bucket.spec_step m2 (MapsModel.Bucket.ItemGetOrSet k v) <> (m', MapsModel.Bucket.OGetSet x ex)
+  end.
+Proof. exact AtomicProofs.get_or_set_unchecked_refuted. Qed.
+Print Assumptions C16_get_or_set_needs_recheck.
+
+(* SyncPrioritySlice.Appends(p, vs) = one atomic Append per value, then a critical section that sorts: the sort
+   leaves every ordered slice as it is (and every reachable slice is ordered, C16_priority_step_keeps_all), so
+   under any interleaving Appends is the sequence of its Append steps — NOT one atomic batch; without
+   interference the steps add up to the Appends of the sequential model. *)
+Theorem C16_appends_is_a_sequence_of_appends :
+  (forall s : list PrioModel.item, PrioProofs.sorted s -> AtomicModel.sort_step s = s) /\
+  (forall (s : list PrioModel.item) (p : Z) (vs : list Z), PrioProofs.sorted s ->
+     AtomicModel.sort_step (fold_left (fun s v => AtomicModel.append_step s v p) vs s) = fst (PrioModel.step s (PrioModel.Appends p vs))).
+Proof. split; [exact AtomicProofs.appends_sort_noop | exact AtomicProofs.appends_is_appends]. Qed.
+Print Assumptions C16_appends_is_a_sequence_of_appends.
+
+(* Why two sections are rejected: OrderSync.Del with the position read in one section and used in the next
+   (AtomicModel.del_stale) is Del when nothing happens in between, and with a single Del of another key in
+   between it leaves the deleted key in the entry list, a live key's index past the end, and a state that no
+   atomic execution of the two calls produces. *)
+Theorem C16_del_over_two_sections_breaks_order :
+  (forall o k, AtomicModel.del_stale o o k = MapsModel.Order.del o k) /\
+  (let o1 := fst (MapsModel.Order.run MapsModel.Order.empty [MapsModel.Order.Set_ 1 10; MapsModel.Order.Set_ 2 20; MapsModel.Order.Set_ 3 30]) in
+   let o2 := MapsModel.Order.del o1 1 in
+   let bad := AtomicModel.del_stale o1 o2 3 in
+   bad <> MapsModel.Order.del o2 3 /\ bad <> MapsModel.Order.del (MapsModel.Order.del o1 3) 1 /\
+   In 3%Z (map fst (MapsModel.Order.value bad)) /\ MapX.mget 2 (MapsModel.Order.idx bad) = Some 1%nat /\
+   List.length (MapsModel.Order.value bad) = 1%nat).
+Proof. split; [exact AtomicProofs.del_stale_same | exact AtomicProofs.del_two_sections_refuted]. Qed.
+Print Assumptions C16_del_over_two_sections_breaks_order.
+
+(* non-vacuity of the atomicity obligation: the shapes of the current sources pass, the split Del, a lock upgrade,
+   a write under RLock, GetOrSet without re-check and a third section do not; the declared shapes are per method *)
+Example C16_atomic_example :
+  AtomicModel.path_step_ok "OrderSync" "Del" [Lock "self"; DeferUnlock "self"; Acc "self" "idx" false; Acc "self" "value" true] = true /\
+  AtomicModel.path_step_ok "OrderSync" "Del" [RLock "self"; Acc "self" "idx" false; RUnlock "self"] = true /\
+  AtomicModel.path_step_ok "OrderSync" "Del"
+    [RLock "self"; Acc "self" "idx" false; RUnlock "self"; Lock "self"; DeferUnlock "self"; Acc "self" "value" true] = false /\
+  AtomicModel.path_step_ok "SyncMap" "MarshalJSON" [CallSelf "self" "Map"] = true /\
+  AtomicModel.path_step_ok "SyncMap" "Set" [RLock "self"; DeferRUnlock "self"; Acc "self" "data" true] = false /\
+  AtomicModel.path_step_ok "MutexBucketItem" "GetOrSet"
+    [RLock "self"; Acc "self" "kv" false; RUnlock "self"; Lock "self"; DeferUnlock "self"; Acc "self" "kv" false; Acc "self" "kv" true] = true /\
+  AtomicModel.path_step_ok "MutexBucketItem" "GetOrSet"
+    [RLock "self"; Acc "self" "kv" false; RUnlock "self"; Lock "self"; DeferUnlock "self"; Acc "self" "kv" true] = false /\
+  AtomicModel.path_step_ok "MutexBucketItem" "GetAndDel"
+    [RLock "self"; Acc "self" "kv" false; RUnlock "self"; Lock "self"; DeferUnlock "self"; Acc "self" "kv" false; Acc "self" "kv" true] = false /\
+  AtomicModel.path_step_ok "SyncPrioritySlice" "Appends"
+    [CallSelf "self" "Append"; CallSelf "self" "Append"; Lock "self"; DeferUnlock "self"; Acc "self" "items" true] = true /\
+  AtomicModel.path_step_ok "SyncPrioritySlice" "Appends"
+    [CallSelf "self" "Append"; Lock "self"; Acc "self" "items" true; Unlock "self"; Lock "self"; Acc "self" "items" true; Unlock "self"] = false /\
+  AtomicModel.path_step_ok "MutexBucket" "Len"
+    [RLock "bucket"; Acc "bucket" "kv" false; RUnlock "bucket"; RLock "bucket"; Acc "bucket" "kv" false; RUnlock "bucket"] = true /\
+  AtomicModel.path_step_ok "MutexBucket" "Get"
+    [RLock "bucket"; Acc "bucket" "kv" false; RUnlock "bucket"; RLock "bucket"; Acc "bucket" "kv" false; RUnlock "bucket"] = false.
 Proof. vm_compute. repeat split. Qed.
 End Locks.
